@@ -27,7 +27,7 @@ LEVEL_TEXT = ('Exploration: a pool of API calls (scan/parse/compose(_all)/load(_
               'before and after every call. Streams concatenated from documents d1..dn must give exactly [load(d1), ..] (same '
               'for compose/parse, both back-ends); leak-bait documents that use an anchor, a %TAG handle or rely on a %YAML '
               'directive of the previous document must fail inside the stream exactly as they fail alone, after the earlier '
-              'documents were delivered. Per-document reset hooks record internal leftovers as evidence.')
+              'documents were delivered. Per-document reset hooks record internal leftovers as evidence.' + ' The stream documents include deep constructions (__setstate__ objects, apply arguments, an application YAMLObject) that meet already constructed nodes, followed by recursive documents, read through Safe, Unsafe and application loaders.')
 LEVEL_NOTE = 'Held on the histories and streams generated.'
 TECHNIQUE = 'runtime monitoring: history oracle (signatures from one fresh interpreter per call) + package-state digest monitor around every call + stream-vs-isolated-documents oracle'
 DESIGN_REF = 'DESIGN.md section 3, C11'
